@@ -3,7 +3,7 @@
 export GOFLAGS=-mod=mod GOPROXY=off GOSUMDB=off GOTOOLCHAIN=local
 set -e
 cd /verif && go build -o bin/simgen ./cmd/simgen
-rm -rf /dev/shm/sg2 && ./bin/simgen -out /dev/shm/sg2 -pkgs ./internal/telemetry,./internal/upload,.,./cmd/gotelemetry -mount internal/verifsim/simrt=sim/simrt,internal/verifsim/hlib=sim/hlib,internal/verifsim/ref/refformat=sim/ref/refformat,internal/verifsim/ref/refcal=sim/ref/refcal,internal/verifsim/ref/refstack=sim/ref/refstack,internal/verifsim/ref/refcfg=sim/ref/refcfg,internal/verifsim/ref/refreport=sim/ref/refreport,internal/verifsim/mgen=sim/mgen,cmd/gotelemetry=sim/harness/h2,internal/configstore=sim/shims/configstore,internal/counter=sim/shims/counter
+rm -rf /dev/shm/sg2 && ./bin/simgen -out /dev/shm/sg2 -pkgs ./internal/telemetry,./internal/upload,.,./cmd/gotelemetry -mount internal/verifsim/simrt=sim/simrt,internal/verifsim/hlib=sim/hlib,internal/verifsim/ref/refformat=sim/ref/refformat,internal/verifsim/ref/refcal=sim/ref/refcal,internal/verifsim/ref/refstack=sim/ref/refstack,internal/verifsim/ref/refcfg=sim/ref/refcfg,internal/verifsim/ref/refreport=sim/ref/refreport,internal/verifsim/mgen=sim/mgen,cmd/gotelemetry=sim/harness/h2,cmd/gotelemetry/internal/view=sim/shims/view,internal/configstore=sim/shims/configstore,internal/counter=sim/shims/counter
 cd /repo && go test -c -vet=off -overlay /dev/shm/sg2/overlay.json -o /dev/shm/sg2/h2 ./cmd/gotelemetry
 cd /verif
 /dev/shm/sg2/h2 -test.run '^TestVerifSim$' -- "$@" | grep '^{' | python3 -c "
